@@ -850,9 +850,12 @@ class CombinedMultiDict(ImmutableMultiDictMixin[K, V], MultiDict[K, V]):  # type
 
     def __getitem__(self, key: K) -> V:
         for d in self.dicts:
-            # A key can be present without values, look further then.
-            if key in d and d.getlist(key):
-                return d[key]
+            if key in d:
+                try:
+                    return d[key]
+                except KeyError:
+                    # The key is present without values, look further.
+                    continue
         raise exceptions.BadRequestKeyError(key)
 
     @t.overload  # type: ignore[override]
@@ -872,14 +875,19 @@ class CombinedMultiDict(ImmutableMultiDictMixin[K, V], MultiDict[K, V]):  # type
         type: cabc.Callable[[V], T] | None = None,
     ) -> V | T | None:
         for d in self.dicts:
-            # A key can be present without values, look further then.
-            if key in d and d.getlist(key):
+            if key in d:
+                try:
+                    value = d[key]
+                except KeyError:
+                    # The key is present without values, look further.
+                    continue
+
                 if type is not None:
                     try:
-                        return type(d[key])
+                        return type(value)
                     except (ValueError, TypeError):
                         continue
-                return d[key]
+                return value
         return default
 
     @t.overload
